@@ -378,7 +378,206 @@ Theorem C06_judge_hist_sound : forall h o,
 Proof. exact hist_sound. Qed.
 Print Assumptions C06_judge_hist_sound.
 
+(* second call: the answers of the first call arrive again (leftovers: ids 1..4, the second call issued 5..) and the
+   context is cancelled: ErrTimeout passes; without a cancellation in the script it does not, nor does "still running";
+   the same script is an honest run at position 0 of the id stream and not at position 4 (why a history judges every
+   call at ITS position) *)
 Theorem C06_judge_hist_example :
-  hist_ok [(0%N, Ex.inp 105%N); (4%N, Ex.inp 105%N)] [[Ex.good_out]; [mkOut 4 [] [] [] [] true]] = true.
+  hist_ok [(0%N, Ex.inp 105%N); (4%N, Ex.inp_c 105%N)] [[Ex.good_out]; [mkOut 4 [] [] [] [] true]] = true /\
+  hist_ok [(0%N, Ex.inp 105%N); (4%N, Ex.inp 105%N)] [[Ex.good_out]; [mkOut 4 [] [] [] [] true]] = false /\
+  hist_ok [(0%N, Ex.inp 105%N); (4%N, Ex.inp 105%N)] [[Ex.good_out]; [mkOut 10 [] [] [] [] true]] = false /\
+  live_test_from 0 (Ex.inp 105%N) = true /\ live_test_from 4 (Ex.inp 105%N) = false.
 Proof. exact Ex.hist_ok_example. Qed.
 Print Assumptions C06_judge_hist_example.
+
+(* ================= ORDER of the signatures; the Send log; WHEN the call may fail; liveness as a test =================
+   Model theorems first (for every configuration, every choice of what Go leaves to chance, every event list), then
+   their executable twins in Check/C06_check.v ([c06_core]'s strict order, [log_ok], [kind_ok], [live_test_from]) with
+   (a) every outcome the model allows passes and (b) a passing output satisfies the clause. *)
+
+(* "ordered by signer address": with pairwise distinct signer addresses the signatures of a successful return are
+   STRICTLY ascending by the address of the signer that made them (C06_sig_threshold has the non-strict order). *)
+Theorem C06_sigs_strictly_ordered : forall edv vrs cfg sc,
+  NoDup (map sg_node (c_signers cfg)) -> NoDup (map sg_addr (c_signers cfg)) ->
+  forall evs sigs rep log,
+  run edv vrs fixed cfg sc evs = GFinal (Success sigs rep) log ->
+  exists entries : list (node * N * N),
+    sigs = map snd entries /\
+    StronglySorted (fun a b => (saddr a < saddr b)%N) entries /\
+    forall x, In x entries -> sig_evidence vrs cfg evs rep x.
+Proof. intros edv vrs cfg sc ND NDa evs sigs rep log. exact (sigs_strictly_ordered edv vrs cfg sc ND evs sigs rep log NDa). Qed.
+Print Assumptions C06_sigs_strictly_ordered.
+
+(* Every PeerClient.Send call of every run.  A configuration the call refuses (duplicate chain, no F, nothing to do) is
+   refused before anything is sent.  Otherwise: an observation request (kind 0) names only requested lanes that its
+   addressee observes; a report-signature request (kind 1) goes to a configured signer that RMNHome knows; no node is
+   sent two observation requests (failed sends included); no signer has two accepted signature requests. *)
+Theorem C06_requests_wellformed : forall edv vrs cfg sc,
+  NoDup (map sg_node (c_signers cfg)) ->
+  forall evs,
+  (forall f, prepare cfg = inr f -> run edv vrs fixed cfg sc evs = GFinal (Failure f) []) /\
+  (forall us, prepare cfg = inl (Ok us) ->
+     let log := g_log (run edv vrs fixed cfg sc evs) in
+     Forall (fun r =>
+       (sd_kind r = 0%N /\
+        forall ch, In ch (sd_chains r) -> exists u, In u us /\ u_chain u = ch /\ In (sd_node r) (u_nodes u)) \/
+       (sd_kind r = 1%N /\ In (sd_node r) (signer_nodes cfg) /\ is_home cfg (sd_node r) = true)) log /\
+     NoDup (map sd_node (filter (fun r => N.eqb (sd_kind r) 0) log)) /\
+     NoDup (map sd_node (filter (fun r => N.eqb (sd_kind r) 1 && sd_ok r) log))).
+Proof.
+  intros edv vrs cfg sc ND evs. split.
+  - intros f P. exact (refused_config edv vrs cfg sc f evs P).
+  - intros us P. exact (requests_wellformed edv vrs cfg sc ND evs us P).
+Qed.
+Print Assumptions C06_requests_wellformed.
+
+(* While the call is in phase A no report-signature request has left the controller (so one leaves only after phase A
+   handed on observations that meet the threshold: C06_obs_threshold). *)
+Theorem C06_phaseA_no_sig_request : forall edv vrs cfg sc,
+  NoDup (map sg_node (c_signers cfg)) ->
+  forall evs us s, run edv vrs fixed cfg sc evs = GA us s -> Forall (fun r => sd_kind r = 0%N) (a_log s).
+Proof. exact phaseA_no_sig_request. Qed.
+Print Assumptions C06_phaseA_no_sig_request.
+
+(* WHEN the call may end with which error: a timeout only if the context is done within the event list; a
+   configuration error only if the configuration has it (and then nothing was sent);
+   ErrInsufficientObservationResponses only in phase A (no signature request was sent).  (Nothing further is proved
+   about FInsufSigs / FRoots / FDest / FSendSigs beyond C06_liveness, which excludes every failure.) *)
+Theorem C06_failure_origin : forall edv vrs cfg sc,
+  NoDup (map sg_node (c_signers cfg)) ->
+  forall evs f l,
+  run edv vrs fixed cfg sc evs = GFinal (Failure f) l ->
+  match f with
+  | FTimeoutA | FTimeoutB => In CtxDone evs
+  | FDupChain | FNoF | FNothingToDo => prepare cfg = inr f /\ l = []
+  | FInsufObs => Forall (fun r => sd_kind r = 0%N) l
+  | _ => True
+  end.
+Proof. exact failure_origin. Qed.
+Print Assumptions C06_failure_origin.
+
+Theorem C06_requests_failure_example :
+  (exists us, prepare Witness.cfg = inl (Ok us) /\
+     map (fun r => (sd_kind r, sd_node r))
+         (g_log (run Witness.edv Witness.vrs fixed Witness.cfg Witness.sc Witness.good_run))
+     = [(0, 1); (0, 2); (1, 1); (1, 2)]%N) /\
+  (exists l, run Witness.edv Witness.vrs fixed Witness.cfg Witness.sc [CtxDone] = GFinal (Failure FTimeoutA) l) /\
+  (exists l, run Witness.edv Witness.vrs fixed Witness.cfg Witness.sc (firstn 2 Witness.good_run ++ [CtxDone])
+             = GFinal (Failure FTimeoutB) l).
+Proof. split; [exact requests_wellformed_example|exact failure_origin_example]. Qed.
+Print Assumptions C06_requests_failure_example.
+
+(* ---- executable twins: (b) ---- *)
+(* ORDER: a passing output that reports success hands back signatures strictly ascending by signer address, each of a
+   configured signer whose node delivered it in the script (the scripted RMNCrypto stub accepts signature g for the
+   signer address g / 100, whatever the report: the last conjunct says the same without the existential). *)
+Theorem C06_judge_c06_sigs_ordered : forall i o,
+  c06_ok i o = true ->
+  exists x, o = [x] /\
+    (o_kind x = 0%N ->
+     exists entries : list (node * N * N),
+       o_sigs x = map snd entries /\
+       StronglySorted (fun a b => (saddr a < saddr b)%N) entries /\
+       (forall e rep, In e entries -> sig_evidence vrs_c (i_cfg i) (item_events (i_items i)) rep e) /\
+       StronglySorted N.lt (map (fun g => (g / 100)%N) (o_sigs x))).
+Proof. exact c06_sigs_ordered. Qed.
+Print Assumptions C06_judge_c06_sigs_ordered.
+
+(* LOG and ERROR KIND: the Send log of a passing output satisfies C06_requests_wellformed, and a signature request is
+   in it exactly when attributed observations were handed to the signers (for which C06_judge_c06_sound demands F_home+1
+   carriers per lane); its error kind satisfies C06_failure_origin read on the script. *)
+Theorem C06_judge_c06_log_kind_sound : forall i o,
+  c06_ok i o = true ->
+  exists x, o = [x] /\
+    match prepare (i_cfg i) with
+    | inl (Ok us) =>
+        (forall s, In s (o_log x) ->
+           (snd_kind s = 0%N /\
+            forall ch, In ch (snd_chains s) ->
+              In ch (map u_chain us) /\ In (snd_node s) (rmn_nodes_of (i_cfg i) ch)) \/
+           (snd_kind s = 1%N /\ In (snd_node s) (signer_nodes (i_cfg i)) /\ is_home (i_cfg i) (snd_node s) = true)) /\
+        NoDup (map snd_node (filter is_k0 (o_log x))) /\
+        NoDup (map snd_node (filter (fun s => is_k1 s && snd_ok s) (o_log x))) /\
+        ((exists s, In s (o_log x) /\ snd_kind s = 1%N) <-> o_attr x <> [])
+    | _ => o_log x = [] /\ o_attr x = []
+    end /\
+    ((forall f, prepare (i_cfg i) = inr f -> o_kind x = fail_code f) /\
+     (o_kind x = 3%N -> prepare (i_cfg i) = inr FNothingToDo) /\
+     (o_kind x = 4%N -> In ICancel (i_items i) \/ In IRaceCancel (i_items i)) /\
+     (o_kind x = 5%N -> forall s, In s (o_log x) -> snd_kind s <> 1%N)).
+Proof. exact c06_log_kind_sound. Qed.
+Print Assumptions C06_judge_c06_log_kind_sound.
+
+(* LIVENESS.  [live_test_from off i] IS the hypothesis of C06_liveness for the case, for EVERY schedule (iteration
+   order of rmnNodeInfo, of the vote map) and EVERY event list (due timers, race resolutions) the model allows for it:
+   [eager_evs] are the event lists behind the outcomes of the model, [sched_of] the schedules. *)
+Theorem C06_judge_live_test_sound : forall off i,
+  live_test_from off i = true ->
+  exists us rho,
+    prepare (i_cfg i) = inl (Ok us) /\ c_dest_known (i_cfg i) = true /\
+    (forall u, In u us -> rho (u_chain u) <> 0%N) /\
+    forall order1 ro, In order1 (rotations (i_asked i)) -> In ro (rootords_of i) ->
+      let cfg := i_cfg i in
+      let sc := sched_of off i order1 ro in
+      (forall k, s_fail sc k = false) /\
+      (forall a b, s_id sc a = s_id sc b -> a = b) /\
+      forall evs, In evs (eager_evs cfg sc (ginit cfg sc) (i_items i)) ->
+        exists (hon : node -> bool) (q : upd -> list node) (qs : list node),
+          honest_quorums us hon q /\
+          (forall u, In u us -> (zlen (filter (fun n => negb (hon n)) (u_nodes u)) <= u_F u)%Z) /\
+          (NoDup qs /\ (c_remoteF cfg + 1 <= zlen qs)%Z /\ (0 <= c_remoteF cfg)%Z /\
+           forall h, In h qs -> hon h = true /\ In h (signer_nodes cfg) /\ is_home cfg h = true) /\
+          honest_run edv_c vrs_c cfg sc us hon rho evs /\
+          ~ In CtxDone evs /\
+          (forall u h, In u us -> In h (q u) -> answered_A edv_c vrs_c cfg sc evs h) /\
+          (forall h, In h qs -> answered_B edv_c vrs_c cfg sc evs h).
+Proof. exact live_test_sound. Qed.
+Print Assumptions C06_judge_live_test_sound.
+
+(* (a) for the liveness clause, from C06_liveness: when the test holds EVERY outcome the model allows is a success, so
+   the clause "test => kind 0" cannot reject an output that agrees with the model. *)
+Theorem C06_judge_live_test_model : forall off i x,
+  NoDup (map sg_node (c_signers (i_cfg i))) /\ NoDup (map sg_addr (c_signers (i_cfg i))) /\
+  NoDup (map hn_id (c_nodes (i_cfg i))) ->
+  live_test_from off i = true -> In x (c06_model_from off i) -> o_kind x = 0%N.
+Proof. exact live_test_success. Qed.
+Print Assumptions C06_judge_live_test_model.
+
+(* (b): a passing output of a case that satisfies the test reports success. *)
+Theorem C06_judge_c06_live_sound : forall i o,
+  c06_ok i o = true -> live_test_from 0 i = true -> exists x, o = [x] /\ o_kind x = 0%N.
+Proof. exact c06_live_sound. Qed.
+Print Assumptions C06_judge_c06_live_sound.
+
+(* histories: every call satisfies all clauses — C06_judge_c06_sound, the log / kind clauses and the liveness clause —
+   against ITS configuration, ITS script and ITS position in the request-id stream ([c06_full_P off i x] is the
+   conjunction of the conclusions above for input i, output x and id offset off). *)
+Theorem C06_judge_hist_sound_full : forall h o,
+  hist_ok h o = true ->
+  Forall2 (fun c y => exists x, y = [x] /\
+             c06_P (snd c) x /\ log_P (i_cfg (snd c)) (o_log x) (o_attr x) /\
+             kind_P (i_cfg (snd c)) (i_items (snd c)) x /\
+             ((exists us rho, live_facts (N.to_nat (fst c)) (snd c) us rho) ->
+              live_test_from (N.to_nat (fst c)) (snd c) = true -> o_kind x = 0%N)) h o.
+Proof. exact hist_sound_full. Qed.
+Print Assumptions C06_judge_hist_sound_full.
+
+(* Non-vacuity and the executable property as it stood before these clauses ([c06_core] alone, kept as
+   Ex.c06_ok1_before2): (1) an observation request to an unknown node and a signature request without attributed
+   observations passed; (2) ErrTimeout without a cancellation in the script passed; (3) an honest complete script (the
+   test holds) with an output reporting ErrInsufficientSignatureResponses passed; the good output still passes;
+   (4) the two signatures in descending address order do not pass. *)
+Theorem C06_judge_c06_before2_example :
+  (Ex.c06_ok1_before2 (Ex.inp_c 105%N) Ex.bad_log_out = true /\ c06_ok1 (Ex.inp_c 105%N) Ex.bad_log_out = false /\
+   ~ log_P (i_cfg (Ex.inp_c 105%N)) (o_log Ex.bad_log_out) (o_attr Ex.bad_log_out)) /\
+  (Ex.c06_ok1_before2 Ex.inp_wait Ex.bad_kind_out = true /\ c06_ok1 Ex.inp_wait Ex.bad_kind_out = false /\
+   ~ kind_P (i_cfg Ex.inp_wait) (i_items Ex.inp_wait) Ex.bad_kind_out) /\
+  (Ex.c06_ok1_before2 (Ex.inp 105%N) Ex.bad_live_out = true /\ live_test_from 0 (Ex.inp 105%N) = true /\
+   c06_ok1 (Ex.inp 105%N) Ex.bad_live_out = false /\ c06_ok1 (Ex.inp 105%N) Ex.good_out = true) /\
+  (c06_ok1 (Ex.inp 105%N) (mkOut 0 [(5, 105)]%N [1201; 1101]%N Ex.log4 (o_attr Ex.good_out) true) = false /\
+   c06_ok1 (Ex.inp 105%N) (mkOut 0 [(5, 105)]%N [1101; 1201]%N Ex.log4 (o_attr Ex.good_out) true) = true).
+Proof.
+  split; [exact Ex.c06_ok1_before2_log_unjudged|]. split; [exact Ex.c06_ok1_before2_kind_free|].
+  split; [exact Ex.c06_ok1_before2_no_liveness|exact Ex.c06_order_example].
+Qed.
+Print Assumptions C06_judge_c06_before2_example.
